@@ -61,6 +61,22 @@ type Flow struct {
 	ID    int
 	Type  int // 0 messaging, 1 messaging_background
 	Nodes []*Node
+	// Corrupt != "": the definition handed to the real loader violates exactly one load-time rule (see
+	// corruptKinds) at node CorruptNode.  The loader rejects such a flow, so for the engine it is as good as
+	// missing: the model is given the asset store WITHOUT it (Coq() omits it, flow() does not find it).
+	Corrupt     string
+	CorruptNode int
+}
+
+// nearly valid definitions: each violates exactly one rule of flow / node / router / wait validation
+var corruptKinds = []string{
+	"dangling-destination",          // an exit leads to a node that does not exist
+	"duplicate-node-uuid",           // two nodes share a UUID
+	"category-exit-not-on-node",     // a category names an exit the node does not have
+	"timeout-category-foreign-exit", // the timeout category names ANOTHER node's exit
+	"unknown-default-category",      // the router's default category does not exist
+	"unknown-case-category",         // a case names a category that does not exist
+	"unknown-timeout-category",      // the wait's timeout names a category that does not exist
 }
 
 type Options struct {
@@ -368,13 +384,107 @@ func cloneAssets(a *Assets) *Assets {
 	return c
 }
 
+// flow finds a loadable flow (a corrupt one is rejected by the loader: as good as missing)
 func (a *Assets) flow(id int) *Flow {
 	for _, f := range a.Flows {
-		if f.ID == id {
+		if f.ID == id && f.Corrupt == "" {
 			return f
 		}
 	}
 	return nil
+}
+
+// corrupt makes flow f violate one load-time rule, at node nodeID when it has what the rule needs; reports
+// whether it could
+func (f *Flow) corrupt(r *hx.Rand, nodeID int) bool {
+	n := f.node(nodeID)
+	if n == nil {
+		if len(f.Nodes) == 0 {
+			return false
+		}
+		n = f.Nodes[r.Intn(len(f.Nodes))]
+	}
+	var kinds []string
+	if len(n.Exits) > 0 {
+		kinds = append(kinds, "dangling-destination", "dangling-destination")
+	}
+	kinds = append(kinds, "duplicate-node-uuid")
+	if n.Router != nil {
+		kinds = append(kinds, "category-exit-not-on-node", "unknown-default-category")
+		if len(n.Router.Cases) > 0 {
+			kinds = append(kinds, "unknown-case-category")
+		}
+		if n.Router.Wait != nil && n.Router.Wait.HasTimeout {
+			kinds = append(kinds, "unknown-timeout-category")
+			if len(f.Nodes) > 1 {
+				kinds = append(kinds, "timeout-category-foreign-exit", "timeout-category-foreign-exit")
+			}
+		}
+	}
+	f.Corrupt, f.CorruptNode = kinds[r.Intn(len(kinds))], n.ID
+	return true
+}
+
+// applyCorruption edits the JSON of the flow's nodes
+func (f *Flow) applyCorruption(nodes []any) []any {
+	if f.Corrupt == "" {
+		return nodes
+	}
+	var nm map[string]any
+	var other map[string]any
+	for i, n := range f.Nodes {
+		if n.ID == f.CorruptNode {
+			nm = nodes[i].(map[string]any)
+		} else if other == nil && len(n.Exits) > 0 {
+			other = nodes[i].(map[string]any)
+		}
+	}
+	if nm == nil {
+		return nodes
+	}
+	rm, _ := nm["router"].(map[string]any)
+	switch f.Corrupt {
+	case "dangling-destination":
+		if exits := nm["exits"].([]any); len(exits) > 0 {
+			exits[0].(map[string]any)["destination_uuid"] = uuidOf(kNode, 99999)
+		}
+	case "duplicate-node-uuid":
+		cp := map[string]any{"uuid": nm["uuid"], "exits": []any{map[string]any{"uuid": uuidOf(kExit, 999991)}}}
+		nodes = append(nodes, cp)
+	case "category-exit-not-on-node":
+		if rm != nil {
+			rm["categories"].([]any)[0].(map[string]any)["exit_uuid"] = uuidOf(kExit, 999992)
+		}
+	case "timeout-category-foreign-exit":
+		if rm != nil && other != nil {
+			w := rm["wait"].(map[string]any)["timeout"].(map[string]any)
+			foreign := other["exits"].([]any)[0].(map[string]any)["uuid"]
+			for _, c := range rm["categories"].([]any) {
+				if cm := c.(map[string]any); cm["uuid"] == w["category_uuid"] {
+					cm["exit_uuid"] = foreign
+				}
+			}
+		}
+	case "unknown-default-category":
+		if rm != nil {
+			rm["default_category_uuid"] = uuidOf(kCat, 999993)
+		}
+	case "unknown-case-category":
+		if rm != nil {
+			if cases := rm["cases"].([]any); len(cases) > 0 {
+				cases[0].(map[string]any)["category_uuid"] = uuidOf(kCat, 999994)
+			}
+		}
+	case "unknown-timeout-category":
+		if rm != nil {
+			if w, ok := rm["wait"].(map[string]any); ok {
+				if t, ok := w["timeout"].(map[string]any); ok {
+					t["category_uuid"] = uuidOf(kCat, 999995)
+				}
+			}
+		}
+	}
+	return nodes
 }
 
 func (f *Flow) node(id int) *Node {
@@ -477,6 +587,7 @@ func (a *Assets) flowJSON(f *Flow) map[string]any {
 		nm["exits"] = exits
 		nodes = append(nodes, nm)
 	}
+	nodes = f.applyCorruption(nodes)
 	return map[string]any{
 		"uuid": uuidOf(kFlow, f.ID), "name": fmt.Sprintf("F%d", f.ID), "spec_version": "13.6.1", "language": "eng",
 		"type": flowTypes[f.Type], "nodes": nodes,
@@ -514,10 +625,15 @@ func optNat(i int, none int) string {
 func (a *Assets) Coq() string {
 	var sb strings.Builder
 	sb.WriteString("{| a_flows := [")
-	for i, f := range a.Flows {
-		if i > 0 {
+	first := true
+	for _, f := range a.Flows {
+		if f.Corrupt != "" {
+			continue // rejected by the loader: not in the store the engine sees
+		}
+		if !first {
 			sb.WriteString(";\n ")
 		}
+		first = false
 		fmt.Fprintf(&sb, "{| f_id := %s; f_type := %s; f_nodes := [", hx.N(f.ID), hx.N(f.Type))
 		for j, n := range f.Nodes {
 			if j > 0 {
